@@ -280,6 +280,28 @@ def check_test_protocol(ctx):
     for c in classes.mro(tcase):
         tc_attrs |= set(c.methods) | set(c.attrs) | set(c.properties)
     ph_attrs = set(holder.methods) | set(holder.attrs) | set(holder.properties)
+    def entries(c, mname):
+        """The protocol methods of ``c`` from which ``mname`` is reached through self.<helper>(...) calls (itself when it is one)."""
+        public = [m for m in c.methods if not m.startswith("_")]
+        if mname in public:
+            return [mname]
+        reach = {}
+        for m, f in c.methods.items():
+            reach[m] = {n.func.attr for n in ast.walk(f) if isinstance(n, ast.Call) and isinstance(n.func, ast.Attribute) and isinstance(n.func.value, ast.Name) and n.func.value.id == "self"}
+            reach[m] |= {n.attr for n in ast.walk(f) if isinstance(n, ast.Attribute) and isinstance(n.value, ast.Name) and n.value.id == "self" and n.attr in c.methods}
+        out = []
+        for p_ in sorted(public):
+            seen, work = set(), [p_]
+            while work:
+                x = work.pop()
+                if x in seen:
+                    continue
+                seen.add(x)
+                work.extend(reach.get(x, ()))
+            if mname in seen:
+                out.append(p_)
+        return out or [mname]
+
     for c in classes.all:
         if c.external or c.module.name != REAL:
             continue
@@ -298,10 +320,25 @@ def check_test_protocol(ctx):
                         problem = f"PlaceHolder.{n.attr} is None and is used as an exception class in an except clause (TypeError at run time)"
                     if not in_tc:
                         problem = f"TestCase has no attribute {n.attr!r}"
-                    ctx.check("R-TEST-PROTOCOL", f"{c.name}.{mname}: test.{n.attr}", n, not problem,
-                              f"{problem}: reporting a PlaceHolder/ErrorHolder through this path raises instead of delivering the outcome",
-                              construct=f"{REAL}:{c.name}.{mname}::test.{n.attr}")
+                    for entry in entries(c, mname):
+                        ctx.check("R-TEST-PROTOCOL", f"{c.name}.{entry}{'' if entry == mname else ' (through ' + mname + ')'}: test.{n.attr}", n, not problem,
+                                  f"{problem}: reporting a PlaceHolder/ErrorHolder through this path raises instead of delivering the outcome",
+                                  construct=f"{REAL}:{c.name}.{entry}::test.{n.attr}")
     ctx.floor("R-TEST-PROTOCOL", 4, "attribute uses on test objects")
+    # and as it happens: a PlaceHolder reporting each outcome through ExtendedToOriginalDecorator to each flavour of result
+    etod = classes.get(REAL, "ExtendedToOriginalDecorator")
+    for flavour in FLAVOURS:
+        for oc in OUTCOMES:
+            sc = _scenario(ctx, flavour, module="testtools")
+            res = sc.run(f"def scenario(err, plain):\n    test = PlaceHolder('a.test.id')\n    r = ExtendedToOriginalDecorator(plain)\n    r.startTest(test)\n    {rm.outcome_call(oc)}\n    r.stopTest(test)\n    return None\n",
+                         err=rm.ERR, plain=("wobj", "plain"))
+            problems = set()
+            for r in res:
+                got = [m for m, _, _ in _received(r) if m in OUTCOMES]
+                if r.kind != "val" or len(got) != 1:
+                    problems.add(f"the call {'raises ' + repr(r.value) if r.kind == 'exc' else 'returns'} and the result receives the outcomes {got}; expected exactly one delivery")
+            ctx.check("R-TEST-PROTOCOL", f"[a PlaceHolder reports {oc} to a {flavour} result] the outcome is delivered once, nothing raises", etod.node, bool(res) and not problems,
+                      "; ".join(sorted(problems)) or "no path", examined=len(res), construct=f"{REAL}:ExtendedToOriginalDecorator::PlaceHolder {oc} to {flavour}")
 
 
 def run(ctx):
